@@ -25,7 +25,7 @@ META = {
             'applied to every flight in both directions and the honest endpoints\' message contents are arbitrary oracles: '
             'if both endpoints complete then their transcripts, keys, hellos and negotiated views are equal (TLS<=1.2 full, '
             'abbreviated; TLS 1.3 full, HelloRetryRequest, PSK) and equal the server\'s answer to the honest offer; the '
-            'downgrade sentinel is written (full and resumed ServerHello) and checked, FALLBACK_SCSV '
+            'downgrade sentinel is written (full and resumed ServerHello) and checked AT the ServerHello (full and abbreviated), FALLBACK_SCSV '
             'is enforced by the server and emitted by the client for every hello construction (with or without an offered '
             'session), so a fallback retry is refused end to end; the second ClientHello is bound to the first outside the '
             'HRR-permitted extensions. Tied to /repo by a '
@@ -114,7 +114,7 @@ def ch_facts(mhex):
     return {'scsv': 0x5600 in ch.cipher_suites, 'hi': hi, 'obj': ch}
 
 
-def judge(sc, base, r, ops):
+def judge(sc, base, r, ops, held=False):
     """-> list of (key, what) property violations seen in this run"""
     out = []
     cmax, smax = tuple(sc['cs']['maxv']), tuple(sc['ss']['maxv'])
@@ -158,6 +158,8 @@ def judge(sc, base, r, ops):
                 # must hold even if the lower version's Finished cannot be trusted: stop AT the ServerHello
                 out.append(('sentinel-not-checked', 'client (max %r) went on with the key exchange after a ServerHello for %r '
                             'carrying a downgrade sentinel' % (cmax, f['v'])))
+            elif r['c'] != ('LocalAlert', 47) and not held:
+                out.append(('@need-held-run', ''))       # decide WHERE it stopped: see work()
         break
     # SCSV emission (RFC 7507 sect. 4): a client configured to signal a fallback puts TLS_FALLBACK_SCSV in every hello
     if sc['cs'].get('sendFallbackSCSV'):
@@ -193,6 +195,19 @@ def _scenarios():
     return _SC
 
 
+def held_run(P, sc, ops, seed):
+    """The client was handed a ServerHello it must refuse (RFC 8446 4.1.3) and it failed with something else than
+    illegal_parameter.  Repeat the run but deliver NOTHING after that ServerHello: a client that enforces the sentinel at the
+    ServerHello still raises its alert; one that only trips over a later message (Finished, key exchange) now just waits."""
+    r2 = P.run_case(sc, [tuple(o) for o in ops] + [('hold_after_sh', 's2c')], seed=seed)
+    if 'error' in r2:
+        return []
+    if r2['c'][0] in ('Deadlock', 'ok'):
+        return [('sentinel-not-checked', 'client does not stop AT a ServerHello carrying a downgrade sentinel: with everything '
+                 'after the ServerHello withheld it waits for more (%r) instead of sending its alert' % (r2['c'],))]
+    return []
+
+
 def work(job):
     """one attacked handshake + the direct oracle; runs in a pool process"""
     import c04_proxy as P
@@ -206,6 +221,8 @@ def work(job):
     if 'error' in r:
         return {'name': name, 'ops': ops, 'harness_error': r['error']}
     viol = judge(sc, base, r, ops)
+    if ('@need-held-run', '') in viol:
+        viol = [v for v in viol if v[0] != '@need-held-run'] + held_run(P, sc, ops, seed)
     res = {'name': name, 'ops': ops, 'c': r['c'], 's': r['s'], 'both': r['both'], 'viol': viol,
            'applied': len([a for a in r['applied'] if a[0] != 'rw-error']), 'hs_same': r['hs_same']}
     if keep or viol:
@@ -623,6 +640,8 @@ def replay(ctx, path):
     base = {'baseline_diff': b.get('diff', []), 'negotiated': (b.get('vc', {}).get('version'), b.get('vc', {}).get('suite'))}
     out = P.run_case(sc, [tuple(o) for o in r.get('ops', [])], seed=1)
     v = judge(sc, base, out, r.get('ops', []))
+    if ('@need-held-run', '') in v:
+        v = [x for x in v if x[0] != '@need-held-run'] + held_run(P, sc, r.get('ops', []), 1)
     print('client:', out['c'], out.get('cmsg'))
     print('server:', out['s'], out.get('smsg'))
     print('both complete:', out['both'], 'view diff:', out.get('diff'))
